@@ -785,3 +785,22 @@ Example C09_inexact_proximal_example :
   all_satisfied (fst (wrun sq_steps_world inexact_prox_program minit vs)) (snd (wrun sq_steps_world inexact_prox_program minit vs))
     (run_plan plan_ConvexFunction (fstate_of (fun _ => 0%Q) (mrun inexact_prox_program minit) 0)).
 Proof. exact inexact_prox_example. Qed.
+
+(** A SHIPPED example is a program of the op language: the literal is the trace of
+    PEPit/examples/unconstrained_convex_minimization/proximal_point.py, wc_proximal_point(gamma = 0.1, n = 3) (the test
+    parameters; 0.1 as the exact rational the float is) produced by harness/extrace.py on the real PEPit
+    (func.stationary_point(); set_initial_point(); three proximal_step calls).  It is well-formed (every theorem above
+    applies to it), meets the non-degeneracy guard, and yields the counters / the four samples the real run records; the
+    stream `examples-as-programs` compares the complete state for all convertible shipped examples on every run. *)
+From PV Require Import Proofs.C09Shipped.
+Example C09_shipped_proximal_point_is_a_program :
+  mwf shipped_proximal_point_program minit = true /\
+  forallb linopt_dir_nonzero shipped_proximal_point_program = true /\
+  m_np (mrun shipped_proximal_point_program minit) = 5%nat /\
+  m_ne (mrun shipped_proximal_point_program minit) = 4%nat /\
+  List.length (m_samples (mrun shipped_proximal_point_program minit)) = 4%nat /\
+  m_cons (mrun shipped_proximal_point_program minit) = [] /\
+  nth_error (m_samples (mrun shipped_proximal_point_program minit)) 3 =
+    Some (0%nat, ([(1%nat, 1%Q); (2%nat, Qopp shipped_gamma); (3%nat, Qopp shipped_gamma); (4%nat, Qopp shipped_gamma)],
+                  [(4%nat, 1%Q)], [(KF 3, 1%Q)])).
+Proof. exact shipped_proximal_point_example. Qed.
